@@ -81,6 +81,25 @@ def generate(seed, tier):
                  'maxtime_attr': None, 'tick_var': None}
         return {'kind': 'EQN', 'profile': 'misuse_name', 'drive': S['knobs'].choice(['mono', 'step']), 'faults': [],
                 'expect': {'misuse': 'name:' + where, 'bad': bad}, 'block': block, 'knobs': knobs, 'meta': {}}
+    if r < 0.43:
+        # the optional initial steady-state search runs first (on a copy, with its own cap of 1000);
+        # afterwards a period of the real run cannot converge: the user's cap must still be the bound
+        rng = S['topology']
+        T = S['knobs'].randint(2, 4)
+        g = round(rng.uniform(5, 40), 1)
+        block = {'eqs': [['y', 'tick(0.5*c + %s)' % repr(g)], ['c', 'chaos(0.3*y + 0.2*LAG_w)'], ['w', '0.8*LAG_w + 0.1*y']],
+                 'lags': [['LAG_w', 'w', 'k']], 'ics': [['w', repr(round(rng.uniform(0, 50), 1))]], 'exo': [],
+                 'maxtime': T, 'err_tol': None}
+        cap = S['faults'].choice([20, 35, 60, 150])
+        knobs = {'reduction': S['knobs'].random() < 0.5, 'tol_param': 1e-10, 'cap': cap, 'trace_step': None,
+                 'maxtime_attr': None, 'tick_var': 'y',
+                 'steady': {'T': S['knobs'].choice([60, 100]), 'tol': 1e-3, 'excluded': ['t']}}
+        # chaos() calls of the real run only are counted (the search works on a deep copy): fail from period p on
+        p = S['faults'].randint(1, T)
+        faults = [{'kind': S['faults'].choice(['eval_oscillate', 'eval_oscillate', 'eval_zdiv', 'eval_domain']), 'at': 1 + (p - 1) * 15,
+                   'count': 10 ** 9}]
+        return {'kind': 'EQN', 'profile': 'steady_then_fail', 'drive': 'step', 'faults': faults, 'expect': {},
+                'block': block, 'knobs': knobs, 'meta': {}}
     case = eqncases.gen_case(seed, PROFILES, tier)
     if S['swarm'].random() < 0.8:
         case['drive'] = 'step'
